@@ -162,6 +162,16 @@ def run(tier, seed):
                 d = copy.deepcopy(base); (d if holder is None else d[holder])[nm] = bad
                 one(kind, d)
                 one(kind, json.dumps(d))
+    # 1e. JSON text may repeat a member name (json.loads keeps the last): the text form is parsed exactly like the value json.loads gives
+    dup_texts = []
+    for kind, body in (("auth", '"response": {"clientDataJSON": "e30", "authenticatorData": "AAAA", "signature": "c2ln"}'), ("reg", '"response": {"clientDataJSON": "e30", "attestationObject": "o2NmbXQ"}')):
+        for extra in ('"clientExtensionResults": {"rk": true, "rk": true}', '"authenticatorAttachment": "platform", "authenticatorAttachment": "platform"', '"type": "public-key"',
+                      '"clientExtensionResults": {"a": {"b": 1, "b": 2}}', '"rawId": "AQ"', '"id": "zzz", "id": "AQ"', '"response": {}, ' + body, body.replace('"e30"', '"e30", "clientDataJSON": "e30"')):
+            t = '{"id": "AQ", "rawId": "AQ", "type": "public-key", ' + body + ", " + extra + "}"
+            a = one(kind, t)
+            b2 = one(kind, json.loads(t))
+            if a != b2:
+                chk.violation("JSON text with a repeated member name is parsed differently from the value json.loads gives for it", f"{kind}-duplicate-member-name", {"entry": f"parse_{kind}_credential_json", "input": t, "impl": a, "dict_form": b2})
     # 2. member-wise mutation stream, both parsers, both forms
     base_a = {"id": "AQ", "rawId": "AQ", "type": "public-key", "authenticatorAttachment": "platform",
               "response": {"clientDataJSON": "e30", "authenticatorData": "AAAA", "signature": "c2ln", "userHandle": "dWg"}}
@@ -223,6 +233,8 @@ def run(tier, seed):
             org = rng.choice(["", " ", "/", "\t"]) + org + "".join(rng.choice("/ .:#?%A\u00e9\t\n\\\"'") for _ in range(rng.randrange(1, 4)))
             typ = typ + rng.choice(["", " ", "/", "\u0000", "GET"])
         extra = rng.choice([{}, {"crossOrigin": True}, {"zzz": [1, 2, {"a": None}], "aaa": 0.5}, {"tokenBinding": {"status": "supported", "id": "x"}},
+                            {"topOrigin": None}, {"topOrigin": 0}, {"topOrigin": []}, {"topOrigin": {}}, {"topOrigin": "https://top.example", "crossOrigin": True}, {"crossOrigin": "yes"},
+                            {"crossOrigin": None}, {"androidPackageName": 5}, {"other_keys_can_be_added_here": ["do not compare clientDataJSON against a template"]}, {"hashAlgorithm": "SHA-256"},
                             {"tokenBinding": "string"}, {"tokenBinding": {"status": "weird"}}, {"tokenBinding": {"status": 5}}])
         d = {"type": typ, "challenge": authsim.b64u(ch), "origin": org}
         d.update(extra)
